@@ -32,6 +32,15 @@ def mappedOutput (m : Nat) (f : Bytes → Bytes) (input : Bytes) : Bytes :=
 /-- What each target of a tee must have received: the full input. -/
 def teeOutput (input : Bytes) : Bytes := input
 
+/-- The input of a writer that was given a sequence of calls, `some bytes` = a `write` of these bytes, `none` = a `flush()`:
+the concatenation of everything written. A flush is not a write — "regardless of how the input was split across write
+calls" speaks about the input alone, so whether and where the caller flushes between the writes is, like the split, not
+allowed to show in what is emitted: the required output is `mappedOutput` / `teeOutput` of `writtenBytes`. -/
+def writtenBytes : List (Option Bytes) → Bytes
+  | [] => []
+  | some bytes :: rest => bytes ++ writtenBytes rest
+  | none :: rest => writtenBytes rest
+
 /-- A child program: the sequence of its writes, `false` = stdout, `true` = stderr. -/
 abbrev Script := List (Bool × Bytes)
 
